@@ -330,3 +330,67 @@ def r11d(fb, rep):
         else:
             rep.violation(R, "replacement-not-normalised", "FixupMatches records `y -> x` with the scrutinee's raw name: when x is itself a replaced variable (its match was "
                           "eliminated) later uses of y name an unbound variable (ice: Undefined variable)", c.where())
+
+
+def r11e(fb, rep):
+    """R11e — record patterns of several alternatives are aligned by field *name*.
+
+    The pattern-match compiler merges the record patterns heading a group of equations into one core pattern (the union of their
+    fields in first-seen order, one fresh variable per merged field) and then prepends each equation's own sub-patterns to its
+    remaining columns.  The sub-patterns must be matched to the merged fields by name; pairing them by position
+    (`ast::pattern_values(fields).zip(core_fields)`) is only right when every alternative lists the same fields in the same order."""
+    R = "R11e"
+    rep.rule(R, "the sub-patterns of record alternatives are matched to the merged pattern's fields by name, not by position")
+    bs = [b for bid, b in fb.bodies.items() if b.crate.name == "gluon_vm" and "PatternTranslator" in bid and "::compile_record" in bid]
+    if not bs:
+        rep.anchor_lost(R, "PatternTranslator::compile_record")
+        return
+    n = 0
+    for b in bs:
+        for c in b.calls():
+            if (c.fn or "").endswith("Iterator::zip") and c.args and flow.has_call(flow.sources(b, c.args[0], depth=8), lambda x: x.endswith("ast::pattern_values")):
+                n += 1
+                rep.violation(R, "record-alternatives-aligned-by-position", "PatternTranslator::compile_record pairs an alternative's field sub-patterns with the merged core pattern's "
+                              "fields by position (pattern_values(..).zip(core_fields)): alternatives that list their fields in another order, or name other fields, test and bind the "
+                              "wrong columns", c.where())
+    if not n:
+        rep.ok(R, "compile_record: no positional pairing of an alternative's fields with the merged pattern")
+
+
+def r11f(fb, rep):
+    """R11f — the recursion check accepts only recursive *values* the compiler can close.
+
+    A zero-argument `rec` binding is compiled by pre-allocating its cell and patching the one final `ConstructRecord` /
+    `ConstructVariant` into `CloseData` (anything else is an `ice!`).  `recursion_check::check_tail` must therefore accept only tail
+    forms that end in exactly one such construction: record, tuple and constructor application, behind let/block/type-binding
+    wrappers.  A lambda ends in no construction, `if`/`match` in one per branch (only the last is patched)."""
+    R = "R11f"
+    rep.rule(R, "check_tail accepts only tail forms that compile to a single final construction")
+    from .common import enum_switches, variant_names
+    EXPR = "gluon_base::ast::Expr"
+    b = fb.body("gluon_check::recursion_check::Checker::check_tail")
+    if b is None:
+        rep.anchor_lost(R, "recursion_check::Checker::check_tail")
+        return
+    names = variant_names(fb, EXPR)
+    sws = [(bb, m, o) for bb, m, o in enum_switches(b, EXPR) if len(m) >= 4]
+    if not sws:
+        rep.anchor_lost(R, "match on the tail expression in check_tail")
+        return
+    bb, m, other = sws[0]
+    errs = set(flow.blocks_constructing(b, "gluon_check::recursion_check::Error", "LastExprMustBeConstructor"))
+    closable = {"Block", "LetBindings", "TypeBindings", "Record", "Tuple", "App", "Annotated", "MacroExpansion"}
+    rets = set(b.return_blocks())
+    n = 0
+    for idx, tgt in sorted(m.items()):
+        vn = names[idx]
+        others = [t for i, t in m.items() if t != tgt] + ([other] if other is not None else [])
+        region = b.reachable(tgt, avoid_blocks=[bb]) - b.reachable(others, avoid_blocks=[bb])
+        accepts = bool(b.reachable(tgt, avoid_blocks=list(errs) + [bb]) & rets)
+        n += 1
+        if accepts and vn not in closable:
+            rep.violation(R, "rec-tail-accepted-but-not-closable|%s" % vn, "recursion_check::check_tail accepts a recursive value whose tail is Expr::%s, which the compiler's recursive-value "
+                          "case cannot close (it patches exactly one final ConstructRecord/ConstructVariant; otherwise ice! or an uninitialised cell)" % vn, b.where())
+        elif accepts:
+            rep.ok(R, "Expr::%s tail: closable" % vn)
+    rep.floor(R, "tail forms with an arm of their own", n, 5)
